@@ -226,7 +226,7 @@ Proof.
     assert (Nf : ~ In (tid t) (map fst (epcs s))).
     { pose proof (Permutation_NoDup K2 Nl) as N2. simpl in N2.
       apply NoDup_remove_2 in N2. intros Y. apply N2. apply in_or_app. left; exact Y. }
-    exists (submit1 (r_sy r && is_nil q) t s, set_exp r q). apply c_sub; auto.
+    exists (submit1 false t s, set_exp r q). apply c_sub; auto.
     + rewrite Ee. simpl. rewrite N.eqb_refl. reflexivity.
     + apply get_pc_none. exact Nf.
 Qed.
@@ -264,7 +264,7 @@ Proof.
     match goal with H : split_task _ _ = Some _ |- _ => apply split_task_perm in H; apply Permutation_length in H; simpl in H; rename H into P end.
     match goal with H : cp s = CIdle |- _ => rename H into Hc end.
     unfold mu, submit1. simpl. rewrite wsum_app, Hc. simpl.
-    destruct (r_sy r && is_nil q); simpl; lia.
+    destruct sy; simpl; lia.
   - right. unfold mu, await_st. simpl.
     match goal with H : cp s = CIdle |- _ => rewrite H end.
     match goal with H : num s = S _ |- _ => rewrite H end.
